@@ -260,8 +260,9 @@ func validEllipsis(s string) bool {
 
 func init() {
 	h.Register(&h.Check{
-		ID:   "C12",
-		Rule: "every accepted Go argument type x boundary value set x all 13 scalar formats x position, through the factory and through FillVariables; all int16 and uint16 values into I1/U1/B; every 0b-string over a 6-symbol alphabet up to length 4 plus long forms; float alphabet incl. NaN/Inf/above-max; every byte in ASCII strings; complete small products of message-constructor arguments; every variable name up to length 4 over an 8-symbol alphabet, duplicate/ellipsis placements; oracle computed with math/big: in range => stored exactly (String and ToBytes), out of range => panic; non-trivial = constructor called and judged",
+		ID:          "C12",
+		WatchdogSec: 30, // every case is a handful of constructor calls; half a minute without progress is a hang
+		Rule:        "every accepted Go argument type x boundary value set x all 13 scalar formats x position, through the factory and through FillVariables; all int16 and uint16 values into I1/U1/B; every 0b-string over a 6-symbol alphabet up to length 4 plus long forms; float alphabet incl. NaN/Inf/above-max; every byte in ASCII strings; complete small products of message-constructor arguments; every variable name up to length 4 over an 8-symbol alphabet, duplicate/ellipsis placements; oracle computed with math/big: in range => stored exactly (String and ToBytes), out of range => panic; non-trivial = constructor called and judged",
 		Build: func(tier string, seed int64) []h.Space {
 			var sp []h.Space
 			args := append(goIntArgs(), goFloatArgs()...)
@@ -683,6 +684,60 @@ func init() {
 						c.Fail("invalid-structure-accepted", dups[i].name, itemString(it))
 					}
 					c.Case(0, true, map[bool]string{true: "valid", false: "refused"}[dups[i].ok])
+				}})
+			// repeat counts given to ellipses: a count that denotes no expansion (negative, larger than any item may
+			// be, not a Go int) is refused - it is never dropped silently, alone or together with the other keys of the call
+			type rc struct {
+				v     interface{}
+				valid bool
+			}
+			counts := []rc{{0, true}, {1, true}, {3, true}, {-1, false}, {-2, false}, {-3, false}, {math.MinInt64, false}, {math.MinInt64 + 1, false}, {math.MaxInt64, false},
+				{math.MaxInt64 - 1, false}, {1 << 33, false}, {1 << 24, false}, {int64(1), false}, {uint8(1), false}, {1.0, false}, {"1", false}, {true, false}, {nil, false}}
+			rcTemplates := []struct {
+				name string
+				mk   func() ast.ItemNode
+				keys []string // ellipsis names, outermost first
+			}{
+				{"<L <U1 a> ...>", func() ast.ItemNode { return ast.NewListNode(ast.NewUintNode(1, "a"), "...") }, []string{"..."}},
+				{"<L <L <U1 a> ...[0]> ...[1]>", func() ast.ItemNode {
+					return ast.NewListNode(ast.NewListNode(ast.NewUintNode(1, "a"), "...[0]"), "...[1]")
+				}, []string{"...[1]", "...[0]"}},
+				{"<L <U1 a> ...[0] <L <U1 b> ...[1]>>", func() ast.ItemNode {
+					return ast.NewListNode(ast.NewUintNode(1, "a"), "...[0]", ast.NewListNode(ast.NewUintNode(1, "b"), "...[1]"))
+				}, []string{"...[0]", "...[1]"}},
+			}
+			sp = append(sp, h.Space{Name: "ellipsis-repeat-counts", Count: product(len(rcTemplates), len(counts), len(counts)+1, 2), ChunkHint: 8,
+				Describe: func(i uint64) interface{} {
+					d := unrank(i, len(rcTemplates), len(counts), len(counts)+1, 2)
+					return fmt.Sprintf("%s first count #%d second count #%d with-value=%v", rcTemplates[d[0]].name, d[1], d[2], d[3] == 1)
+				},
+				Run: func(c *h.Ctx, i uint64) {
+					d := unrank(i, len(rcTemplates), len(counts), len(counts)+1, 2)
+					t := rcTemplates[d[0]]
+					fill := map[string]interface{}{t.keys[0]: counts[d[1]].v}
+					valid := counts[d[1]].valid
+					if d[2] < len(counts) {
+						if len(t.keys) < 2 {
+							c.Case(0, false, "one-ellipsis-template")
+							return
+						}
+						fill[t.keys[1]] = counts[d[2]].v
+						valid = valid && counts[d[2]].valid
+					}
+					if d[3] == 1 {
+						fill["a"] = 7
+					}
+					var res ast.ItemNode
+					pan := catch(func() { res = t.mk().FillVariables(fill) })
+					c.Ops(1)
+					desc := fmt.Sprintf("%s.FillVariables(%s)", t.name, showMap(fill))
+					switch {
+					case !valid && pan == nil:
+						c.Fail("invalid-repeat-count-accepted", desc, fmt.Sprintf("no panic; result %q", itemString(res)))
+					case valid && pan != nil:
+						c.Fail("valid-repeat-count-refused", desc, fmt.Sprint(pan))
+					}
+					c.Case(0, true, map[bool]string{true: "expanded", false: "refused"}[valid])
 				}})
 			return sp
 		},
